@@ -106,6 +106,10 @@ def gen(rng, tier, index):
             elif store in ('new_pickle', 'new_wu'):
                 ops.append(['mutate_original', rng.choice(MUTS + ['replace']),
                             rng.randrange(n)])
+            elif store == 'diskcache':
+                # the next store(s) of the disk cache fail (ENOSPC / sqlite error)
+                ops.append(['store_error', rng.choice(['enospc', 'sqlite']),
+                            rng.randrange(0, 2)])
             else:
                 ops.append(['mutate', rng.choice(MUTS), rng.randrange(0, 4)])
         cases.append({'store': store, 'n': n, 'kind': kind, 'shape': shape, 'ops': ops})
@@ -218,9 +222,36 @@ def run(case):
 
             if case.get('mode') == 'concurrent':
                 _run_concurrent(case, ds, pristine, violations, probes, fired)
+            from . import c11 as _c11
+            import diskcache as _dc
+            import sqlite3 as _sq
+            _c11.StoreFault.countdown = None
+            if case['store'] == 'diskcache':
+                _dc.Cache.__setitem__ = _c11._faulty_setitem
             for op in case['ops']:
                 if violations:
                     break
+                if op[0] == 'store_error':
+                    _c11.StoreFault.kind, _c11.StoreFault.countdown = op[1], op[2]
+                    fired['store_error_armed'] = fired.get('store_error_armed', 0) + 1
+                    continue
+                if op[0] == 'read' and case['store'] == 'diskcache' and \
+                        op[1] in ('prefetch1', 'prefetchw') and \
+                        _c11.StoreFault.countdown is not None:
+                    op = ['read', 'iter', op[2], op[3]]     # read sequentially while a store fault is armed
+                if op[0] == 'read' and case['store'] == 'diskcache' and \
+                        op[1] not in ('prefetch1', 'prefetchw'):
+                    # a failing store may make the access raise (licensed); it
+                    # must never make a later read return something else
+                    before_f = _c11.StoreFault.fired
+                    try:
+                        _, path, i, seed = op
+                        _read(ds, path, i, n, check)
+                    except (OSError, _sq.OperationalError) as e:
+                        if _c11.StoreFault.fired == before_f:
+                            raise
+                        probes['store_error_propagated'] = 1
+                    continue
                 if op[0] == 'read':
                     _, path, i, seed = op
                     if path == 'index':
@@ -276,6 +307,13 @@ def run(case):
                     fired['original_container_mutation'] = fired.get('original_container_mutation', 0) + 1
                     probes['original_container_mutated'] = 1
         finally:
+            try:
+                import diskcache as _dc2
+                from . import c11 as _c112
+                _dc2.Cache.__setitem__ = _c112._orig_setitem
+                _c112.StoreFault.countdown = None
+            except Exception:
+                pass
             held.clear()
             ds = None
             base = None
@@ -290,6 +328,26 @@ def run(case):
                         stats={'ops': len(case['ops'])},
                         sample={'case': case, 'pristine_0': pristine[0]},
                         digest_extra=None)
+
+
+def _read(ds, path, i, n, check):
+    if path == 'index':
+        check(i, ds[i], path)
+    elif path == 'neg':
+        check(i, ds[i - n], path)
+    elif path == 'key':
+        check(i, ds['k%d' % i], path)
+    elif path == 'iter':
+        for j, v in enumerate(ds):
+            check(j, v, path)
+    elif path == 'items':
+        for j, v in enumerate(ds.items()):
+            check(j, v, path)
+    elif path == 'slice':
+        for j, v in zip(range(i, n), ds[i:]):
+            check(j, v, path)
+    elif path == 'copy':
+        check(i, ds.copy()[i], path)
 
 
 def _run_concurrent(case, ds, pristine, violations, probes, fired):
